@@ -193,6 +193,7 @@ type multiStreamListener struct {
 	ln          StreamListener
 	count       uint32
 	acceptCh    chan acceptResponse
+	doneCh      chan struct{}
 	onCloseFunc OnCloseFunc
 }
 
@@ -219,6 +220,8 @@ func (m *multiStreamListener) Acquire() (StreamListener, error) {
 		}
 		m.ln = &TCPListener{ln}
 		m.acceptCh = make(chan acceptResponse)
+		m.doneCh = make(chan struct{})
+		acceptCh, doneCh := m.acceptCh, m.doneCh
 		go func() {
 			for {
 				m.mu.Lock()
@@ -230,10 +233,20 @@ func (m *multiStreamListener) Acquire() (StreamListener, error) {
 				}
 				conn, err := ln.AcceptStream()
 				if errors.Is(err, net.ErrClosed) {
-					close(m.acceptCh)
+					close(acceptCh)
 					return
 				}
-				m.acceptCh <- acceptResponse{conn, err}
+				select {
+				case acceptCh <- acceptResponse{conn, err}:
+				case <-doneCh:
+					// The last handle was closed: nobody will ever receive this
+					// connection, so close it instead of leaving it hanging.
+					if conn != nil {
+						conn.Close()
+					}
+					close(acceptCh)
+					return
+				}
 			}
 		}()
 	}
@@ -250,6 +263,7 @@ func (m *multiStreamListener) Acquire() (StreamListener, error) {
 			if m.count == 0 {
 				m.ln.Close()
 				m.ln = nil
+				close(m.doneCh)
 				if m.onCloseFunc != nil {
 					onCloseFunc := m.onCloseFunc
 					m.onCloseFunc = nil
